@@ -1,5 +1,7 @@
 import ChiDriver.Common
 import ChiModel.Labels
+import ChiModel.ReducedResize
+import ChiDriver.C08
 open Wire ChiModel
 namespace ChiDriver.C17
 
@@ -33,5 +35,18 @@ def labels : Op
     | some r => some [.list (r.map (fun s => .str (esc s)))]
   | _ => none
 
-def ops : List (String × Op) := [("C17.labels", labels)]
+/-- `C17.resize namesOld ops namesNew` → the free names and the number of fixed parameters after a history of
+    fix requests on the old parameter list followed by a resize to the new list -/
+def resize : Op
+  | [oldV, opsV, newV] => do
+    let namesOld ← oldV.strs?
+    let namesNew ← newV.strs?
+    let ops ← (← opsV.list?).mapM ChiDriver.C08.parseReq
+    let nan : Float := 0.0 / 0.0
+    let st := Reduced.run namesOld nan ops
+    let c := Reduced.view namesNew nan (Reduced.resize nan namesOld namesNew st)
+    some [ofStrs (Reduced.restrict c namesNew), .int (Reduced.nFixed c)]
+  | _ => none
+
+def ops : List (String × Op) := [("C17.labels", labels), ("C17.resize", resize)]
 end ChiDriver.C17
